@@ -8,7 +8,7 @@
    cascade children, soundness of the executable checker) are kept. *)
 From Coq Require Import ZArith List Bool Lia Arith.
 Import ListNotations.
-Require Import Params StateW ModularW DisposeW StateP ModularP Rc RcSpec RcP RcWeakP RcDepthP RcEpochP RcSnapCheck RcSnapP RcStampP RcSnapInvP RcWSnapInvP RcRunOkEx.
+Require Import RcPinnedP Params StateW ModularW DisposeW StateP ModularP Rc RcSpec RcP RcWeakP RcDepthP RcEpochP RcSnapCheck RcSnapP RcStampP RcSnapInvP RcWSnapInvP RcRunOkEx.
 Local Open Scope Z_scope.
 
 Theorem C02_ebr_layer_invariant :
@@ -240,3 +240,29 @@ Theorem C02_final_example_conclusion :
   snap_valid (RcDepthP.mrun ex2_s0 ex2_sched).
 Proof. exact RcRunOkEx.ex2_snap_valid. Qed.
 Print Assumptions C02_final_example_conclusion.
+
+(* ---- H2 only where the model lacks the pin (RcPinnedP.v): the run hypothesis `pinned` (epochs carried by frames are within one
+   of the global epoch) is DERIVED for every thread that is inside a critical section - the epoch was read after the pin and the
+   section holds the clock - and remains an assumption (`pinned_out`, run_ok') only for threads outside one: deferred functions
+   run by an unpinned collector and guard-less operations, where the real code pins internally and the model does not *)
+Theorem C02_final_H2_outside_sections_only :
+  forall (s0 : state) (sched : list (nat * list Z)),
+       run_ok' s0 sched -> snap_valid (RcDepthP.mrun s0 sched).
+Proof. exact RcPinnedP.C02_final'. Qed.
+Print Assumptions C02_final_H2_outside_sections_only.
+
+Theorem C02_H2_derived_inside_sections :
+  forall s : state, EOK s -> err s = 0 -> PInv s -> pinned_out s -> pinned s.
+Proof. exact RcPinnedP.pinned_of. Qed.
+Print Assumptions C02_H2_derived_inside_sections.
+
+Theorem C02_weaker_run_hypothesis_suffices :
+  forall (s0 : state) (sched : list (nat * list Z)), run_ok' s0 sched -> run_ok s0 sched.
+Proof. exact RcPinnedP.run_ok_of. Qed.
+Print Assumptions C02_weaker_run_hypothesis_suffices.
+
+Theorem C02_frame_epochs_inside_sections :
+  forall (s0 : state) (sched : list (nat * list Z)),
+       run_ok' s0 sched -> FrameEp (RcDepthP.mrun s0 sched).
+Proof. exact RcPinnedP.FrameEp_along_runs. Qed.
+Print Assumptions C02_frame_epochs_inside_sections.
